@@ -33,11 +33,11 @@ def build_all():
 HIST_RX = re.compile(r'ph=(\w+) hist=([0-9,\-]+) ')
 
 
-def run_single(binary, tier, desc):
+def run_single(binary, tier, desc, cfg):
     m = HIST_RX.search(desc)
     if not m:
         return None
-    p = subprocess.run([binary, '--tier', tier, '--single', m.group(1), m.group(2)],
+    p = subprocess.run([binary, '--tier', tier, '--cfg', cfg, '--single', m.group(1), m.group(2)],
                        capture_output=True, timeout=120)
     return p
 
@@ -58,7 +58,7 @@ def make_replayer(bins, tier, rep):
             return generic(target, clause, idx, config)
         hits = 0
         for _ in range(2):
-            p = run_single(binary, tier, desc)
+            p = run_single(binary, tier, desc, config or 'asan')
             if clause.startswith('crash') or clause == 'hang':
                 if p.returncode != 0 or b'DONE' not in p.stdout:
                     hits += 1
@@ -101,8 +101,9 @@ def run(tier):
     ]
     bins = build_all()
     rep.configs = list(CONFIGS)
+    plan = {'asan': 'closed,deep,mixed', 'inplace': 'closed,deep' if tier == 'quick' else 'closed,deep,mixed'}
     for cfg in CONFIGS:
-        core.run_sharded(rep, bins[cfg], tier, extra_args=['--cfg', cfg], config=cfg)
+        core.run_sharded(rep, bins[cfg], tier, extra_args=['--cfg', cfg, '--phases', plan[cfg]], config=cfg)
     # every shard runs the identical search and prints identical notes only from shard 0
     per = parse_bfs_notes(rep.notes)
     states = sum(int(d['states']) for d in per if d['cfg'] == 'asan')
@@ -112,8 +113,9 @@ def run(tier):
     rep.extra['traces_validated_against_impl'] = sum(int(d['transitions']) for d in per)
     rep.extra['search'] = [{k: (int(v) if v.lstrip('-').isdigit() else v) for k, v in d.items()} for d in per]
     rep.extra['frontier_emptied'] = {('%s/%s' % (d['cfg'], d['phase'])): bool(int(d['frontier_emptied'])) for d in per}
-    if len(per) != 3 * len(CONFIGS):
-        rep.harness_errors.append('expected %d search summaries, got %d' % (3 * len(CONFIGS), len(per)))
+    want = sum(len(v.split(',')) for v in plan.values())
+    if len(per) != want:
+        rep.harness_errors.append('expected %d search summaries, got %d' % (want, len(per)))
     # "exhaustive" = the stated bounded space was enumerated completely (depth bound or closure)
     rep.finish(make_replayer(bins, tier, rep))
 
@@ -122,7 +124,7 @@ def replay(r, tier):
     """./check C17 --replay replay/C17/<x>.replay : re-run the recorded history, report whether it still fails."""
     cfg = r.get('config') or 'asan'
     binary = build(cfg)
-    p = run_single(binary, tier, r['case'])
+    p = run_single(binary, tier, r['case'], cfg)
     if p is None:
         sys.stderr.write('no history in the replay file\n')
         return 2
